@@ -224,6 +224,8 @@ CLOSED = {
 def closed_edges(b, cs, path):
     oc = q.outcomes(b, cs)
     first = oc.get(path[0], []) or oc.get({'failure': 'Err'}.get(path[0], path[0]), [])
+    if not first and path == ['None']:
+        first = oc.get('failure', [])        # `recv().await.ok_or(Shutdown)?`: the closed channel is the failure arm of the `?`
     if len(path) == 1:
         return first
     out = []
